@@ -73,7 +73,8 @@ def _task_inner(p, hseed, nmax_factor, with_ref, mode):
     grid = grid_for(p, nmax_factor)
     shm = mode >= 3  # a quarter of the seeds use a shared-memory sketch (same estimates expected)
     mode = mode % 3
-    h = HyperLogLog(p, hseed, shared_memory=shm)
+    ptype = [int, np.uint8, np.int64, np.uint16, np.int8, np.uint64][(hseed + p) % 6]  # p as the integer types callers pass
+    h = HyperLogLog(ptype(p), hseed, shared_memory=shm)
     out = []
     decoy = HyperLogLog(7 if p != 7 else 16, 1)  # another precision is alive and younger than h
     e0 = sut(h.query)
